@@ -456,6 +456,16 @@ fn main() {
                     Ok((_, f)) => {
                         let mut done = false;
                         for it in &f.items { if let Item::Const(c) = it { if c.ident == name.as_str() { let mut c = c.clone(); c.attrs.clear(); c.vis = parse_quote!(pub); o.push_str(&format!("// ---- const {} from {}\n{}\n", name, file, ts(&c))); done = true; } } }
+                        // `Type::NAME`: associated const of an inherent impl, emitted inside `impl Type { .. }`
+                        if let (Some(ty), cn) = split_path(name) {
+                            for it in &f.items { if let Item::Impl(im) = it { if im.trait_.is_none() && squash(&ts(&im.self_ty)) == squash(&ty) {
+                                for ii in &im.items { if let ImplItem::Const(c) = ii { if c.ident == cn.as_str() {
+                                    let mut c = c.clone(); c.attrs.clear(); c.vis = parse_quote!(pub);
+                                    let g = strip_generic_defaults(&im.generics);
+                                    o.push_str(&format!("// ---- const {} from {}\nimpl{} {} {{\n    {}\n}}\n", name, file, g, ts(&im.self_ty), ts(&c))); done = true;
+                                } } }
+                            } } }
+                        }
                         if !done { ctx.problems.push(format!("LOST-ANCHOR const {} in {}", name, file)); }
                     }
                     Err(e) => ctx.problems.push(e),
